@@ -103,7 +103,11 @@ func peach(fm *Frame, opts peachOpt, f Callable, inputs Inputs) error {
 			return
 		}
 		if workerSema != nil {
-			workerSema.Acquire(ctx, 1)
+			if workerSema.Acquire(ctx, 1) != nil {
+				// Interrupted while waiting for a free worker: the semaphore
+				// has not been acquired, so don't start the callback.
+				return
+			}
 		}
 		wg.Add(1)
 		go func() {
